@@ -106,7 +106,7 @@ Inductive stmt :=
 
 (* EInjected: an injected fault that is an Exception; EInterrupt: an injected BaseException that is NOT an Exception
    (KeyboardInterrupt, SystemExit, asyncio.CancelledError) — the bare `except:` of _create catches both *)
-Inductive err := EInjected | EInterrupt | EIntegrity | EOperational | EOther.   (* EOther: implementation side only *)
+Inductive err := EInjected | EInterrupt | EIntegrity | EOperational | EPython | EOther.   (* EPython: an exception raised by Python code between two statements (no statement involved); EOther: implementation side only *)
 Inductive res (A:Type) := Ok (a:A) | Err (e:err).
 Arguments Ok {A} a. Arguments Err {A} e.
 
@@ -152,7 +152,7 @@ Definition apply_stmt (s:stmt) (tb:tables) : res tables :=
    Pysqlite      : the stock sqlite3 driver: a DML statement opens a transaction if none is open, a DDL
                    statement joins an open transaction and is committed at once when none is open
    AutoCommitDDL : DDL commits whatever is open and itself (MySQL, Oracle) *)
-Inductive kind := TxDDL | Pysqlite | AutoCommitDDL.
+Inductive kind := TxDDL | Pysqlite | AutoCommitDDL | AutoCommit.   (* AutoCommit: an autocommit connection (isolation_level="AUTOCOMMIT"): every statement is its own transaction *)
 Inductive outcome := Commit | Rollback.
 Record conn := mkConn { committed : tables; current : tables; intx : bool }.
 
@@ -187,6 +187,11 @@ Definition exec (k:kind) (s:stmt) (c:conn) : conn * option err :=
         | Ok tb => (mkConn tb tb false, None)
         | Err e => (c, Some e)
         end
+  | AutoCommit =>
+      match apply_stmt s (current c) with
+      | Ok tb => (mkConn tb tb false, None)
+      | Err e => (c, Some e)
+      end
   end.
 
 Definition end_scope (oc:outcome) (c:conn) : tables :=
@@ -207,6 +212,7 @@ Inductive prog :=
 | PSkip
 | PStmt (s:stmt)
 | PSeq (p q:prog)
+| PRaise (e:err)                     (* Python code between two statements raises *)
 | PTry (body handler els:prog).      (* try: body  except: handler; raise  else: els *)
 
 (* interpreter state: the connection, the number of statements sent so far, the statements sent (newest first) *)
@@ -220,6 +226,7 @@ Definition step (k:kind) (f:nat -> bool) (inj:nat -> err) (s:stmt) (x:st) : st *
 Fixpoint run (k:kind) (f:nat -> bool) (inj:nat -> err) (p:prog) (x:st) : st * option err :=
   match p with
   | PSkip => (x, None)
+  | PRaise e => (x, Some e)
   | PStmt s => step k f inj s x
   | PSeq p q =>
       let (x1, e) := run k f inj p x in
@@ -243,11 +250,19 @@ Fixpoint index_prog (t:name) (ixs:list idx) : prog :=
   | i :: r => PSeq (PStmt (SCreateIndex t i)) (index_prog t r)
   end.
 
+(* _gather_indexes_from_both_tables, evaluated AFTER the rename and outside the try (`for idx in self._gather_...():`):
+   `self.new_table.c[col]` for every column of every index — a column the new table does not have (dropped by the same
+   batch, or never there) raises KeyError before the first CREATE INDEX is sent.  Columns are positions in the new table:
+   the new table has as many columns as there are transfers. *)
+Definition gather_ok (tr:list transfer) (ixs:list idx) : bool :=
+  forallb (fun i => forallb (fun c => Nat.ltb c (length tr)) (i_cols i)) ixs.
+Definition index_tail (t:name) (tr:list transfer) (ixs:list idx) : prog :=
+  if gather_ok tr ixs then index_prog t ixs else PRaise EPython.
 Definition create_prog (t tmp:name) (nd:tdef) (tr:list transfer) (ixs:list idx) : prog :=
   PSeq (PStmt (SCreateTable tmp nd))
        (PTry (PSeq (PStmt (SCopy t tmp tr)) (PStmt (SDropTable t)))
              (PStmt (SDropTable tmp))
-             (PSeq (PStmt (SRename tmp t)) (index_prog t ixs))).
+             (PSeq (PStmt (SRename tmp t)) (index_tail t tr ixs))).
 
 (* ------------------------------------------------------------------ flush *)
 (* who ends the transaction: the caller (the batch ran inside the caller's transaction; after the
